@@ -20,7 +20,7 @@ import sympy as sp
 from .absint import ExtRef, LibMethod, Obj, UnknownBool, _is_sym, num_to_sym
 from .num import Num
 
-_OPS = {ast.Add: operator.add, ast.Sub: operator.sub, ast.Mult: operator.mul, ast.Div: operator.truediv, ast.Pow: operator.pow,
+_OPS = {ast.BitAnd: operator.and_, ast.BitOr: operator.or_, ast.BitXor: operator.xor, ast.Add: operator.add, ast.Sub: operator.sub, ast.Mult: operator.mul, ast.Div: operator.truediv, ast.Pow: operator.pow,
         ast.MatMult: operator.matmul, ast.FloorDiv: operator.floordiv, ast.Mod: operator.mod}
 
 # numpy functions whose real implementation is applied to the symbolic arrays
@@ -28,7 +28,8 @@ _NP_FUNCS = ("multiply", "subtract", "add", "divide", "true_divide", "square", "
              "dot", "matmul", "inner", "outer", "transpose", "asarray", "array", "asanyarray", "concatenate", "hstack", "vstack", "stack",
              "column_stack", "append", "insert", "flip", "ravel", "reshape", "squeeze", "expand_dims", "atleast_1d", "atleast_2d",
              "zeros_like", "ones_like", "empty_like", "full_like", "zeros", "ones", "empty", "full", "size", "shape", "ndim", "copy", "tensordot", "einsum",
-             "prod", "mean", "trace", "diag", "tile", "repeat", "take", "swapaxes", "moveaxis", "clip", "arange", "linspace", "flipud", "roll")
+             "prod", "mean", "trace", "diag", "tile", "repeat", "take", "swapaxes", "moveaxis", "clip", "arange", "linspace", "flipud", "roll",
+             "flatnonzero", "nonzero", "argwhere", "count_nonzero", "logical_and", "logical_or", "logical_not", "searchsorted", "where")
 _ELEMENTWISE = {"log": sp.log, "exp": sp.exp, "sqrt": sp.sqrt, "abs": sp.Abs, "absolute": sp.Abs}
 
 
